@@ -1137,7 +1137,8 @@ impl Read for Message<'_> {
             Self::Encrypted { edata, .. } => edata.read(buf),
         }?;
 
-        if read == 0 {
+        // a read of 0 bytes into an empty buffer does not mean that the end was reached
+        if read == 0 && !buf.is_empty() {
             self.check_trailing_data()?;
         }
 
